@@ -25,6 +25,9 @@ Extract/C17x.vos Extract/C17x.vok Extract/C17x.required_vos: Extract/C17x.v Mode
 Extract/C18x.vo Extract/C18x.glob Extract/C18x.v.beautified Extract/C18x.required_vo: Extract/C18x.v gen/C18Tables.vo Model/Control.vo Spec/C18.vo Spec/C18Judge.vo
 Extract/C18x.vio: Extract/C18x.v gen/C18Tables.vio Model/Control.vio Spec/C18.vio Spec/C18Judge.vio
 Extract/C18x.vos Extract/C18x.vok Extract/C18x.required_vos: Extract/C18x.v gen/C18Tables.vos Model/Control.vos Spec/C18.vos Spec/C18Judge.vos
+Extract/C19x.vo Extract/C19x.glob Extract/C19x.v.beautified Extract/C19x.required_vo: Extract/C19x.v Model/WebIde.vo Spec/C19Judge.vo
+Extract/C19x.vio: Extract/C19x.v Model/WebIde.vio Spec/C19Judge.vio
+Extract/C19x.vos Extract/C19x.vok Extract/C19x.required_vos: Extract/C19x.v Model/WebIde.vos Spec/C19Judge.vos
 Model/Control.vo Model/Control.glob Model/Control.v.beautified Model/Control.required_vo: Model/Control.v gen/C18Tables.vo
 Model/Control.vio: Model/Control.v gen/C18Tables.vio
 Model/Control.vos Model/Control.vok Model/Control.required_vos: Model/Control.v gen/C18Tables.vos
@@ -49,6 +52,9 @@ Model/LspText.vos Model/LspText.vok Model/LspText.required_vos: Model/LspText.v
 Model/OrderOblivious.vo Model/OrderOblivious.glob Model/OrderOblivious.v.beautified Model/OrderOblivious.required_vo: Model/OrderOblivious.v 
 Model/OrderOblivious.vio: Model/OrderOblivious.v 
 Model/OrderOblivious.vos Model/OrderOblivious.vok Model/OrderOblivious.required_vos: Model/OrderOblivious.v 
+Model/Resource.vo Model/Resource.glob Model/Resource.v.beautified Model/Resource.required_vo: Model/Resource.v 
+Model/Resource.vio: Model/Resource.v 
+Model/Resource.vos Model/Resource.vok Model/Resource.required_vos: Model/Resource.v 
 Model/Restart.vo Model/Restart.glob Model/Restart.v.beautified Model/Restart.required_vo: Model/Restart.v 
 Model/Restart.vio: Model/Restart.v 
 Model/Restart.vos Model/Restart.vok Model/Restart.required_vos: Model/Restart.v 
@@ -67,6 +73,9 @@ Model/StRef.vos Model/StRef.vok Model/StRef.required_vos: Model/StRef.v Model/St
 Model/StTyping.vo Model/StTyping.glob Model/StTyping.v.beautified Model/StTyping.required_vo: Model/StTyping.v Model/StCore.vo
 Model/StTyping.vio: Model/StTyping.v Model/StCore.vio
 Model/StTyping.vos Model/StTyping.vok Model/StTyping.required_vos: Model/StTyping.v Model/StCore.vos
+Model/WebIde.vo Model/WebIde.glob Model/WebIde.v.beautified Model/WebIde.required_vo: Model/WebIde.v 
+Model/WebIde.vio: Model/WebIde.v 
+Model/WebIde.vos Model/WebIde.vok Model/WebIde.required_vos: Model/WebIde.v 
 Proofs/C02Proofs.vo Proofs/C02Proofs.glob Proofs/C02Proofs.v.beautified Proofs/C02Proofs.required_vo: Proofs/C02Proofs.v Model/StCore.vo Model/StTyping.vo Model/StRef.vo
 Proofs/C02Proofs.vio: Proofs/C02Proofs.v Model/StCore.vio Model/StTyping.vio Model/StRef.vio
 Proofs/C02Proofs.vos Proofs/C02Proofs.vok Proofs/C02Proofs.required_vos: Proofs/C02Proofs.v Model/StCore.vos Model/StTyping.vos Model/StRef.vos
@@ -97,6 +106,12 @@ Proofs/C17Proofs.vos Proofs/C17Proofs.vok Proofs/C17Proofs.required_vos: Proofs/
 Proofs/C18Proofs.vo Proofs/C18Proofs.glob Proofs/C18Proofs.v.beautified Proofs/C18Proofs.required_vo: Proofs/C18Proofs.v gen/C18Tables.vo Model/Control.vo Spec/C18.vo
 Proofs/C18Proofs.vio: Proofs/C18Proofs.v gen/C18Tables.vio Model/Control.vio Spec/C18.vio
 Proofs/C18Proofs.vos Proofs/C18Proofs.vok Proofs/C18Proofs.required_vos: Proofs/C18Proofs.v gen/C18Tables.vos Model/Control.vos Spec/C18.vos
+Proofs/C19Proofs.vo Proofs/C19Proofs.glob Proofs/C19Proofs.v.beautified Proofs/C19Proofs.required_vo: Proofs/C19Proofs.v Model/WebIde.vo
+Proofs/C19Proofs.vio: Proofs/C19Proofs.v Model/WebIde.vio
+Proofs/C19Proofs.vos Proofs/C19Proofs.vok Proofs/C19Proofs.required_vos: Proofs/C19Proofs.v Model/WebIde.vos
+Proofs/C20Proofs.vo Proofs/C20Proofs.glob Proofs/C20Proofs.v.beautified Proofs/C20Proofs.required_vo: Proofs/C20Proofs.v Model/Resource.vo
+Proofs/C20Proofs.vio: Proofs/C20Proofs.v Model/Resource.vio
+Proofs/C20Proofs.vos Proofs/C20Proofs.vok Proofs/C20Proofs.required_vos: Proofs/C20Proofs.v Model/Resource.vos
 Proofs/CycleProofs.vo Proofs/CycleProofs.glob Proofs/CycleProofs.v.beautified Proofs/CycleProofs.required_vo: Proofs/CycleProofs.v Model/Io.vo Model/Cycle.vo Proofs/IoProofs.vo
 Proofs/CycleProofs.vio: Proofs/CycleProofs.v Model/Io.vio Model/Cycle.vio Proofs/IoProofs.vio
 Proofs/CycleProofs.vos Proofs/CycleProofs.vok Proofs/CycleProofs.required_vos: Proofs/CycleProofs.v Model/Io.vos Model/Cycle.vos Proofs/IoProofs.vos
@@ -145,6 +160,9 @@ Properties/C17.vos Properties/C17.vok Properties/C17.required_vos: Properties/C1
 Properties/C18.vo Properties/C18.glob Properties/C18.v.beautified Properties/C18.required_vo: Properties/C18.v gen/C18Tables.vo Model/Control.vo Spec/C18.vo Proofs/C18Proofs.vo
 Properties/C18.vio: Properties/C18.v gen/C18Tables.vio Model/Control.vio Spec/C18.vio Proofs/C18Proofs.vio
 Properties/C18.vos Properties/C18.vok Properties/C18.required_vos: Properties/C18.v gen/C18Tables.vos Model/Control.vos Spec/C18.vos Proofs/C18Proofs.vos
+Properties/C19.vo Properties/C19.glob Properties/C19.v.beautified Properties/C19.required_vo: Properties/C19.v Model/WebIde.vo Proofs/C19Proofs.vo
+Properties/C19.vio: Properties/C19.v Model/WebIde.vio Proofs/C19Proofs.vio
+Properties/C19.vos Properties/C19.vok Properties/C19.required_vos: Properties/C19.v Model/WebIde.vos Proofs/C19Proofs.vos
 Spec/C04.vo Spec/C04.glob Spec/C04.v.beautified Spec/C04.required_vo: Spec/C04.v 
 Spec/C04.vio: Spec/C04.v 
 Spec/C04.vos Spec/C04.vok Spec/C04.required_vos: Spec/C04.v 
@@ -175,6 +193,9 @@ Spec/C18.vos Spec/C18.vok Spec/C18.required_vos: Spec/C18.v
 Spec/C18Judge.vo Spec/C18Judge.glob Spec/C18Judge.v.beautified Spec/C18Judge.required_vo: Spec/C18Judge.v Spec/C18.vo
 Spec/C18Judge.vio: Spec/C18Judge.v Spec/C18.vio
 Spec/C18Judge.vos Spec/C18Judge.vok Spec/C18Judge.required_vos: Spec/C18Judge.v Spec/C18.vos
+Spec/C19Judge.vo Spec/C19Judge.glob Spec/C19Judge.v.beautified Spec/C19Judge.required_vo: Spec/C19Judge.v Model/WebIde.vo
+Spec/C19Judge.vio: Spec/C19Judge.v Model/WebIde.vio
+Spec/C19Judge.vos Spec/C19Judge.vok Spec/C19Judge.required_vos: Spec/C19Judge.v Model/WebIde.vos
 gen/C05Sites.vo gen/C05Sites.glob gen/C05Sites.v.beautified gen/C05Sites.required_vo: gen/C05Sites.v 
 gen/C05Sites.vio: gen/C05Sites.v 
 gen/C05Sites.vos gen/C05Sites.vok gen/C05Sites.required_vos: gen/C05Sites.v 
